@@ -203,7 +203,7 @@ def shaped_case(rng):
     d1 = table(rng, "d1", [("k", "int", [1, 2, 3]), ("a", "float", None), ("b", "int", None), ("s", "str", None)], null_rate=nr,
                nrows=0 if rng.random() < 0.1 else None)
     d2 = table(rng, "d2", [("k", "int", [1, 2, 3, 4]), ("a", "float", None), ("z", "float", None)], null_rate=nr)
-    kind = rng.choice(["join", "join", "join2", "joinnames", "concat", "project_empty", "project", "window", "shift", "logic", "cmp", "filter",
+    kind = rng.choice(["join", "join", "join2", "joinnames", "join_fill", "join_fill", "ordered_fl", "ordered_fl", "concat", "project_empty", "project", "window", "shift", "logic", "cmp", "filter",
                        "minmax", "ifelse", "nulltests", "strings", "arith", "order", "reserved", "count"])
     num = lambda: rng.choice(["a", "b", "a", "k"])
     cmpop = lambda: rng.choice(["<", "<=", ">", ">=", "==", "!="])
@@ -220,6 +220,24 @@ def shaped_case(rng):
         b = {"op": "rename_columns", "src": {"op": "select_columns", "src": T2, "columns": ["k", "z"]}, "map": {"j": "k"}}
         s = {"op": "natural_join", "src": {"op": "select_columns", "src": T1, "columns": ["k", "a", "uid"]}, "b": b, "on": [["k", "j"]],
              "jointype": rng.choice(["INNER", "LEFT", "RIGHT", "FULL"])}
+    elif kind == "join_fill":
+        # every join type with a shared NON-KEY column that is null on matched left rows and non-null on the right (and the
+        # other way round), non-null keys: the left-first fill-in of natural_join must happen for matched rows too
+        f = lambda: rng.randint(-8, 12) / 2.0
+        lrows = [[1, None, 1], [2, f(), 2], [3, None, 3], [2, None, 4]] + ([[5, f(), 5]] if rng.random() < 0.5 else [])
+        rrows = [[1, f(), f()], [2, f(), None], [4, f(), f()]] + ([[3, None, f()]] if rng.random() < 0.5 else [])
+        rng.shuffle(lrows); rng.shuffle(rrows)
+        d1 = {"name": "d1", "spec": [("k", "int"), ("v", "float"), ("uid", "int")], "rows": lrows}
+        d2 = {"name": "d2", "spec": [("k", "int"), ("v", "float"), ("z", "float")], "rows": rrows}
+        s = {"op": "natural_join", "src": T1, "b": T2, "on": ["k"], "jointype": rng.choice(["INNER", "INNER", "LEFT", "RIGHT", "FULL"])}
+    elif kind == "ordered_fl":
+        # ordered windows whose terms are ONLY first / last / ffill / bfill (Polars 1.44 has them), rows stored in shuffled order,
+        # total order (uid is a random permutation)
+        part = rng.choice([[], ["k"], ["k"]])
+        ob = rng.choice([["uid"], ["uid"], ["b", "uid"]])
+        fns = rng.sample(["first", "last", "ffill", "bfill"], rng.randint(1, 2))
+        ops = {f"w{i}": f"{rng.choice(['a', 'a', 'b'])}.{fn}()" for i, fn in enumerate(fns)}
+        s = {"op": "extend", "src": T1, "ops": ops, "partition_by": part, "order_by": ob, "reverse": [c for c in ob if rng.random() < 0.3]}
     elif kind == "concat":
         b = T1 if rng.random() < 0.4 else {"op": "select_rows", "src": T1, "expr": f"b {cmpop()} {lit()}"}
         s = {"op": "concat_rows", "src": T1, "b": b, "id_column": rng.choice([None, "src", "src"]), "a_name": "left", "b_name": "right"}
